@@ -13,7 +13,7 @@ RULE = ('every listed elementary function x a finite argument lattice x precisio
         'rigorous ball arithmetic (oracle/refball.py) escalated until the comparison with the stated bound 2^(4-p) is decided '
         '(per part for exp/log/sin/cos/sinh/cosh, relative to the larger part otherwise); real arguments inside the real domain '
         'must give real results, outside it the principal complex value.  Lattice: +-m*2^k, m in {1,3/2,1+2^-j,2-2^-j}, k from -2p-8 '
-        'to 40 (stepped), p-bit neighbours of n*pi/2, 1 +- 2^-j, n/2 +- 2^-j with j up to 2p+40 (mantissas much longer than p), 8 complex directions x moduli, near-axis points.  non-trivial = '
+        'to 40 (stepped), p-bit neighbours of n*pi/2, 1 +- 2^-j, n/2 +- 2^-j and 2^k(1 +- 2^-j) with j up to 2p+40 (mantissas much longer than p), 8 complex directions x moduli, near-axis points.  non-trivial = '
         'finite non-zero reference value; cases are duplicate-free by construction (set of (fn, argument) per task)')
 ASSUMPTIONS = ['oracle/refball.py error bounds (self-tested, cross-validated against mpmath at +200 bits in development)',
                'branch-cut conventions for points exactly on cuts follow the formulas in refball.F (Kahan-style, continuity from the side mpmath documents)']
@@ -73,6 +73,11 @@ def long_near_half_integers(p):
             for s in (1, -1):
                 num = n * (1 << (j - 1)) + s          # n/2 + s*2^-j  over 2^j
                 out.append(mk(1 if num < 0 else 0, abs(num), -j))
+    # 2^k (1 +- 2^-j): long mantissas next to powers of two (branches keyed on the binary magnitude, e.g. the near-1 test of log)
+    for k in (-3, -2, -1, 1, 2, 5):
+        for j in (p + 5, p + 30, 2 * p + 40):
+            for s in (1, -1):
+                out.append(mk(0, (1 << j) + s, k - j))
     return out
 
 
